@@ -79,12 +79,12 @@ using WObj = trompeloeil::deathwatched<MWb>;
 using E = std::unique_ptr<trompeloeil::expectation>;
 
 enum { S_A0 = 0, S_Q1 = 1, S_Q2 = 2, S_D = 3, S_Q3 = 4, S_FIRST_CREATED = 5 };
-enum { NOPS = 20, MAXT = 3, MAXOPS = 3 };
+enum { NOPS = 21, MAXT = 3, MAXOPS = 3 };
 static const char* OPN[NOPS] = {"call m.f(1)", "call m.f(0)", "call m.g(1)", "create REQUIRE_CALL(m,f(1))", "create+release ALLOW_CALL(m,f(_))",
   "create REQUIRE_CALL(m,g(_)).IN_SEQUENCE(s).TIMES(2)", "create REQUIRE_CALL(m,g(_)).TIMES(2).IN_SEQUENCE(s)", "create REQUIRE_CALL(m,g(_)).IN_SEQUENCE(s,s2)",
   "release Q1", "release A0", "Q2.is_satisfied();Q2.is_saturated()", "s.is_completed()", "delete w", "release D", "destroy m2",
   "create REQUIRE_CALL(m,g(_)).IN_SEQUENCE(s3).TIMES(AT_MOST(2))", "s3.is_completed()", "release Q3 (expectation on m2)",
-  "create REQUIRE_DESTRUCTION(*w).IN_SEQUENCE(s3)", "D.is_satisfied();D.is_saturated()"};
+  "create REQUIRE_DESTRUCTION(*w).IN_SEQUENCE(s3)", "D.is_satisfied();D.is_saturated()", "Q1.is_satisfied();Q1.is_saturated()"};
 
 struct Program { int nt; int nops[MAXT]; int op[MAXT][MAXOPS]; };
 static std::string prog_str(const Program& p) {
@@ -173,6 +173,7 @@ static ExecResult execute(const Program& p, const std::vector<int>& choices) {
         case 17: slot[S_Q3].reset(); r = "rel:" + take_reports(t); break;
         case 18: slot[cs] = NAMED_REQUIRE_DESTRUCTION(*w).IN_SEQUENCE(*s3); r = "ok"; break;
         case 19: { bool a = slot[S_D]->is_satisfied(); bool b = slot[S_D]->is_saturated(); r = std::string("q:") + (a ? '1' : '0') + (b ? '1' : '0'); break; }
+        case 20: { bool a = slot[S_Q1]->is_satisfied(); bool b = slot[S_Q1]->is_saturated(); r = std::string("q:") + (a ? '1' : '0') + (b ? '1' : '0'); break; }
       }
       R.res[t].push_back(r);
     }
@@ -232,6 +233,7 @@ static std::vector<Micro> micro_of(int op, int cs) {
     case 17: return {{MI_RELEASE, S_Q3, 0, 0}};
     case 18: return {{MI_MONITOR, cs, 0, 0}, {MI_REG, cs, 2, 0}};
     case 19: return {{MI_QSAT, S_D, 0, 0}, {MI_QSATUR, S_D, 0, 0}};
+    case 20: return {{MI_QSAT, S_Q1, 0, 0}, {MI_QSATUR, S_Q1, 0, 0}};
   }
   return {};
 }
@@ -368,6 +370,7 @@ static bool valid_program(const Program& p) {
   int cnt[NOPS] = {0};
   for (int t = 0; t < p.nt; ++t) for (int j = 0; j < p.nops[t]; ++j) cnt[p.op[t][j]]++;
   for (int d : {8, 9, 12, 13, 14, 17}) if (cnt[d] > 1) return false;  // an object is destroyed at most once (caller obligation)
+  if (cnt[20] && cnt[8]) return false;                                // Q1 is queried directly: it must not be released concurrently
   if (cnt[19] && cnt[13]) return false;                               // D is queried directly: it must not be released concurrently
   if (cnt[18] && cnt[12]) return false;                               // a requirement is not placed on an object that another operation of the program destroys
   return true;
